@@ -43,8 +43,9 @@ pub trait HasChildren: HasContext {
 
     fn append(&self, value: Rc<XmlItem>) -> error::Result<Rc<XmlItem>> {
         let id = self.last_child_or_self_id();
+        let value = self.insert_by_id(value, None)?;
         value.set_order_after(id);
-        self.insert_by_id(value, None)
+        Ok(value)
     }
 
     fn delete(&self, id: usize) -> Option<Rc<XmlItem>> {
@@ -67,10 +68,9 @@ pub trait HasChildren: HasContext {
 
     fn insert_before(&self, value: Rc<XmlItem>, id: usize) -> error::Result<Rc<XmlItem>> {
         self.child_index(id).ok_or(error::Error::OufOfIndex(id))?;
-        value
-            .set_order_before(id)
-            .ok_or(error::Error::OufOfIndex(id))?;
-        self.insert_by_id(value, Some(id))
+        let value = self.insert_by_id(value, Some(id))?;
+        value.set_order_before(id);
+        Ok(value)
     }
 }
 
